@@ -1,0 +1,21 @@
+//go:build verif
+
+package extension
+
+import "regexp"
+
+// Read-only accessors used by the verification harness in /verif.
+// This file is compiled only with the build tag "verif".
+
+// VerifRegexps returns the compiled regular expressions of the extensions.
+func VerifRegexps() map[string]*regexp.Regexp {
+	return map[string]*regexp.Regexp{
+		"tableDelimLeft":   tableDelimLeft,
+		"tableDelimRight":  tableDelimRight,
+		"tableDelimCenter": tableDelimCenter,
+		"tableDelimNone":   tableDelimNone,
+		"taskList":         taskListRegexp,
+		"wwwURL":           wwwURLRegxp,
+		"url":              urlRegexp,
+	}
+}
